@@ -13,6 +13,8 @@ import (
 	"strings"
 	"sync"
 	"time"
+
+	"golang.org/x/tools/go/ssa"
 )
 
 type Finding struct {
@@ -121,12 +123,43 @@ func selectFunctions(p *Program, prop string) []string {
 		if c.Kind != "func" || c.Inline || c.Trusted != "" {
 			continue
 		}
-		if prop == "" || clauseTags(c)[prop] {
+		if prop == "" || clauseTags(c)[prop] || callsTaggedPrecondition(p, k, prop) {
 			keys = append(keys, k)
 		}
 	}
 	sort.Strings(keys)
 	return keys
+}
+
+// callsTaggedPrecondition: the function (statically) calls a function under contract one of whose
+// preconditions carries the property's tag: the call-site obligation then counts for the property.
+func callsTaggedPrecondition(p *Program, key, prop string) bool {
+	fn := p.funcs[key]
+	if fn == nil {
+		return false
+	}
+	for _, b := range fn.Blocks {
+		for _, ins := range b.Instrs {
+			call, ok := ins.(ssa.CallInstruction)
+			if !ok {
+				continue
+			}
+			callee := call.Common().StaticCallee()
+			if callee == nil {
+				continue
+			}
+			cc := p.cs.Funcs[funcKey(callee)]
+			if cc == nil {
+				continue
+			}
+			for _, cl := range cc.Requires {
+				if hasTag(cl.Tags, prop) {
+					return true
+				}
+			}
+		}
+	}
+	return false
 }
 
 func runProperty(p *Program, prop string, budget int) *propRun {
@@ -245,7 +278,7 @@ func cmdBaseline(cfg Config) int {
 		}
 		for _, prop := range props {
 			c := p.cs.Funcs[s.Function]
-			if c == nil || !clauseTags(c)[prop] {
+			if c == nil || !(clauseTags(c)[prop] || callsTaggedPrecondition(p, s.Function, prop)) {
 				continue
 			}
 			if relevant(s.worst, prop) {
